@@ -126,3 +126,38 @@ def augmented(ex, g, C, sigma, l, m, r):
 _triple("_triple_has_correct_form", lambda ex, a: augmented(ex, a.graph, a.conditions, a.sigma, a.left.t, a.middle.t, a.right.t),
         extra_clause=lambda ex, a: {"mirror-symmetric": augmented(ex, a.graph, a.conditions, a.sigma, a.left.t, a.middle.t, a.right.t)
                                     == augmented(ex, a.graph, a.conditions, a.sigma, a.right.t, a.middle.t, a.left.t)})
+
+
+@contract(f"{SS}.is_z_sigma_open", props=["C20"])
+class _(Contract):
+    """A (simple) path is Z-sigma-open iff neither end point is conditioned on and every triple of consecutive nodes passes the
+    backtrack-augmented triple test."""
+    params = {"graph": "graph", "path": "seq", "sigma": "nodemap", "conditions": ("nodeset", "none", "omit")}
+    allowed_raises = ("IndexError", "KeyError", "NetworkXError")
+    raises_exact = False
+
+    def adapt(self, ex, env):
+        from y0vc.values import VSet, VNone
+        a = super().adapt(ex, env)
+        c = env.get("conditions")
+        a.Z = c if isinstance(c, VSet) else VSet(lambda x: ex.L.F())
+        return a
+
+    def pre(self, ex, a):
+        L, g = ex.L, a.graph
+        return [("path-in-graph", L.forall(1, lambda v: L.Implies(a.path.mem(v), g.N(v)))),
+                ("sigma-total", L.forall(1, lambda v: L.Implies(g.N(v), a.sigma.dom(v))))]
+
+    def raises(self, ex, a):
+        L = ex.L
+        return {"IndexError": L.Not(L.exists(1, lambda x: a.path.mem(x))), "KeyError": L.F(), "NetworkXError": L.F()}
+
+    def spec(self, ex, a):
+        L, g, p = ex.L, a.graph, a.path
+        first = lambda e: L.And(p.mem(e), L.Not(L.exists(1, lambda x: p.before(x, e))))
+        last = lambda e: L.And(p.mem(e), L.Not(L.exists(1, lambda x: p.before(e, x))))
+        succ = lambda u, v: L.And(p.before(u, v), L.Not(L.exists(1, lambda x: L.And(p.before(u, x), p.before(x, v)))))
+        ends = L.forall(1, lambda e: L.Implies(L.Or(first(e), last(e)), L.Not(a.Z.has(e))))
+        triples = L.forall(3, lambda l, m, r: L.Implies(L.And(p.mem(l), p.mem(m), p.mem(r), succ(l, m), succ(m, r)),
+                                                        augmented(ex, g, a.Z, a.sigma, l, m, r)))
+        return VBool(L.And(ends, triples))
